@@ -309,6 +309,10 @@ func c12Gen(seed int64, idx int) c12Case {
 		// name also exists in the defining module)
 		lib := yang.S("module", "fx-lib", yang.S("namespace", "urn:verif:fx-lib"), yang.S("prefix", "fl"),
 			yang.S("grouping", "g", yang.S("description", "the grouping g"), yang.S("reference", "ref of g"),
+				// (groupings nested in g that are named like its nodes and written before them: a refine or an
+				// augment of a uses of g names nodes, never definitions)
+				yang.S("grouping", "c", yang.S("leaf", "in-grouping-c", yang.S("type", "string"))),
+				yang.S("grouping", "x", yang.S("leaf", "in-grouping-x", yang.S("type", "string"))),
 				yang.S("typedef", "x", yang.S("type", "string", yang.S("length", "1..9"))),
 				yang.S("leaf", "x", yang.S("type", "x"), yang.S("must", "count(../fl:c/fl:in-lib) >= 0 or ../c/in-lib")),
 				yang.S("container", "c", yang.S("leaf", "in-lib", yang.S("type", "string"), yang.S("when", "../../fl:x != 'off'")))),
